@@ -1,15 +1,45 @@
 #!/usr/bin/env python3
 """Apply each confirmed seeded change to /repo, run the quick check of its property
 (and optionally other properties), record detected/missed, and restore /repo.
-usage: run_seeded.py [ids...]   (default: all confirmed under /verif/seeded)
+usage: run_seeded.py [--isolated] [ids...]   (default: all confirmed under /verif/seeded)
+--isolated: /repo's working tree is left alone; the change is applied to a scratch worktree under /tmp and the checks run from
+a scratch copy of /verif whose harness module points at that worktree (both removed afterwards). Evidence in /verif is not touched.
 """
-import json, os, subprocess, sys, time
+import json, os, shutil, subprocess, sys, time
 ROOT = "/verif"
-ids = sys.argv[1:] or sorted(os.listdir(os.path.join(ROOT, "seeded")))
+ISOLATED = "--isolated" in sys.argv
+ids = [a for a in sys.argv[1:] if not a.startswith("--")] or sorted(os.listdir(os.path.join(ROOT, "seeded")))
+
+
+def isolated_run(sid, d, prop):
+    wt, vs = "/tmp/wt_" + sid, "/tmp/vs_" + sid
+    subprocess.run("git -C /repo worktree remove --force %s 2>/dev/null; rm -rf %s %s" % (wt, wt, vs), shell=True)
+    try:
+        subprocess.run("git -C /repo worktree add --detach %s HEAD" % wt, shell=True, check=True, stdout=subprocess.DEVNULL, stderr=subprocess.DEVNULL)
+        if subprocess.run("git -C %s apply %s/patch.diff" % (wt, d), shell=True).returncode != 0:
+            return None
+        subprocess.run("cp -a %s %s" % (ROOT, vs), shell=True, check=True)
+        gm = os.path.join(vs, "harness", "go.mod")
+        gmsrc = open(gm).read().replace("=> /repo", "=> " + wt)
+        open(gm, "w").write(gmsrc)
+        for stamp in ("tools.stamp", ".tools.stamp"):
+            try:
+                os.remove(os.path.join(vs, "build", stamp))
+            except OSError:
+                pass
+        p = subprocess.run(["./check", prop], cwd=vs, env=dict(os.environ, VERIF_REPO=wt), stdout=subprocess.PIPE, stderr=subprocess.PIPE, timeout=3000)
+        return p, vs
+    except Exception:
+        raise
+
+
+def cleanup_isolated(sid):
+    wt, vs = "/tmp/wt_" + sid, "/tmp/vs_" + sid
+    subprocess.run("git -C /repo worktree remove --force %s 2>/dev/null; rm -rf %s %s; git -C /repo worktree prune" % (wt, wt, vs), shell=True)
 man = json.load(open(os.path.join(ROOT, "MANIFEST.json")))
 claimed = {c["property_id"] for c in man["checks"]}
 results = {}
-assert subprocess.run("git -C /repo status --porcelain", shell=True, stdout=subprocess.PIPE).stdout.strip() == b"", "/repo not clean"
+assert ISOLATED or subprocess.run("git -C /repo status --porcelain", shell=True, stdout=subprocess.PIPE).stdout.strip() == b"", "/repo not clean"
 for sid in ids:
     d = os.path.join(ROOT, "seeded", sid)
     mp = os.path.join(d, "meta.json")
@@ -21,12 +51,20 @@ for sid in ids:
     prop = meta["property"]
     if prop not in claimed:
         print(sid, "property", prop, "has no check yet"); continue
-    rc = subprocess.run("git -C /repo apply %s/patch.diff" % d, shell=True)
-    if rc.returncode != 0:
-        print(sid, "patch does not apply"); continue
+    base = ROOT
+    if not ISOLATED:
+        rc = subprocess.run("git -C /repo apply %s/patch.diff" % d, shell=True)
+        if rc.returncode != 0:
+            print(sid, "patch does not apply"); continue
     try:
         t0 = time.time()
-        p = subprocess.run(["./check", prop], cwd=ROOT, stdout=subprocess.PIPE, stderr=subprocess.PIPE, timeout=3000)
+        if ISOLATED:
+            got = isolated_run(sid, d, prop)
+            if got is None:
+                print(sid, "patch does not apply"); continue
+            p, base = got
+        else:
+            p = subprocess.run(["./check", prop], cwd=ROOT, stdout=subprocess.PIPE, stderr=subprocess.PIPE, timeout=3000)
         out = p.stdout.decode()
         viol = [l for l in out.splitlines() if l.startswith("VIOLATION")]
         detected = p.returncode == 1 and bool(viol)
@@ -34,14 +72,17 @@ for sid in ids:
         for l in viol:
             rp = l.split("replay=")[1].split()[0]
             try:
-                rj = json.load(open(os.path.join(ROOT, rp)))
+                rj = json.load(open(os.path.join(base, rp)))
                 replays.append({"key": rj.get("key"), "what": (rj.get("what") or "")[:300], "no_input": "no-failing-input-found" in l})
             except Exception:
                 pass
         results[sid] = {"property": prop, "detected": detected, "exit": p.returncode, "wall_s": round(time.time() - t0), "violations": replays[:6]}
         print(sid, "DETECTED" if detected else "MISSED", [r["key"] for r in replays][:4], flush=True)
     finally:
-        subprocess.run("git -C /repo checkout -- . && git -C /repo clean -fdq", shell=True)
+        if ISOLATED:
+            cleanup_isolated(sid)
+        else:
+            subprocess.run("git -C /repo checkout -- . && git -C /repo clean -fdq", shell=True)
     meta["check_result"] = results.get(sid)
     json.dump(meta, open(mp, "w"), indent=1)
 # restore evidence from a clean-tree run is the caller's job
